@@ -399,7 +399,9 @@ int EGLPNUM_TYPENAME_ILLtest_lp_state_next_is (
 	const char *str)
 {
 	EGLPNUM_TYPENAME_ILLread_lp_state_skip_blanks (state, 0);
-	if (strncasecmp (state->p, str, strlen (str)) == 0)
+	/* the whole word, not a name that begins with it ("freedom", "free_1") */
+	if (strncasecmp (state->p, str, strlen (str)) == 0 &&
+			!EGLPNUM_TYPENAME_ILLis_lp_name_char (state->p[strlen (str)], 1))
 	{
 		state->p += strlen (str);
 		return 1;
